@@ -9,10 +9,10 @@ stateful ones: a left fold).
 
 `Any` / `Any.children` / `Within` describe *syntactic position* independently of the traversal:
 `Within a b` says `b` is `a` or a descendant of `a` through immediate-constituent steps, at any depth.
-`Selene.Lints.TraverseBLemmas` proves that the traversal reaches every such position.
+`Selene.LintsB.TraverseBLemmas` proves that the traversal reaches every such position.
 -/
 import Selene.Lua.Ast
-namespace Selene.Lints
+namespace Selene.LintsB
 open Selene.Lua
 
 /-- a diagnostic in token space.  `primary = ⟨i, j⟩` runs from the start of token `i` to the end of
@@ -264,4 +264,4 @@ def blockToks (toks : List String) (seps : List Nat) (b : Block) : List String :
 /-- `purge_trivia(node).to_string()`: the token texts glued together without any separator -/
 def glue (toks : List String) (sp : Span) : String := String.join (nodeToks toks sp)
 
-end Selene.Lints
+end Selene.LintsB
